@@ -87,11 +87,13 @@ def linesOf (s : Str) : List Str := linesAux s []
 
 def digitChar (d : Nat) : Char := Char.ofNat (48 + d)
 
-/-- `'%i' % n` for a non-negative integer -/
-def fmtI (n : Nat) : Str :=
-  if n < 10 then [digitChar n] else fmtI (n / 10) ++ [digitChar (n % 10)]
-termination_by n
-decreasing_by omega
+/-- `'%i' % n` for a non-negative integer; `fuel` ≥ number of digits (structural recursion, so that closed instances
+    evaluate in the kernel) -/
+def fmtIAux : Nat → Nat → Str
+  | 0, n => [digitChar (n % 10)]
+  | fuel + 1, n => if n < 10 then [digitChar n] else fmtIAux fuel (n / 10) ++ [digitChar (n % 10)]
+
+def fmtI (n : Nat) : Str := fmtIAux n n
 
 def digitVal (c : Char) : Option Nat :=
   if 48 ≤ c.toNat ∧ c.toNat ≤ 57 then some (c.toNat - 48) else none
